@@ -7,7 +7,7 @@ CFG = {
     "check_vo": "theories/Check/C10.vo", "prop_vo": "theories/Properties/C10.vo",
     "prop_file": "theories/Properties/C10.v",
     "theory_files": ["theories/Par/Partition.v", "theories/Par/Interleave.v", "theories/Par/ParProofs.v",
-                     "theories/Par/ParExtra.v"],
+                     "theories/Par/ParExtra.v", "theories/Par/ParSequence.v", "theories/Par/FloatDiv.v"],
     "level_text": "Coq theorems about a model of the work partition of every *ParallelWithPoolSize entry point of "
                   "modeling.Mesh (ranges ws*i .. ws*i+ws, last worker takes the remainder), of workers as lists of atomic "
                   "steps and of executions as arbitrary interleavings of those lists: for every element count, every pool "
@@ -16,7 +16,10 @@ CFG = {
                   "conflict; for the marching canvas: every interleaving of the per-chunk AddFieldParallel jobs (incl. "
                   "the mutex-protected chunk table) leaves every cell as the sequential AddField does, the jobs partition "
                   "the field's box, and any arrival order of the block meshes gives the triangle multiset of the "
-                  "sequential March. The model is tied to the Go code on every run: all 9 mesh entry points for ALL "
+                  "sequential March; AddFieldParallel refines AddField on the chunk table in one statement; any sequence "
+                  "of add/march operations gives equal canvases after every step and equal triangle multisets at every "
+                  "march whichever variants and schedules are chosen; a block march reads its +x/+y/+z neighbours (a "
+                  "per-block cache is refuted); int(math.Floor(float64(n)/float64(s))) = n/s for n, s < 2^53 (Flocq binary64). The model is tied to the Go code on every run: all 9 mesh entry points for ALL "
                   "n <= 40 x pool <= 20 plus sampled n up to 2e6, per-index atomic call counters and value sums, outputs "
                   "compared with the sequential entry point, with the ideal observation (direct oracle) and with the "
                   "model run on three schedules; AddField/AddFieldParallel chunk tables (read back by reflection, bitwise) "
@@ -30,7 +33,9 @@ CFG = {
                   "GOMAXPROCS in {1,2,16} with and without runtime.Gosched injected in the callback, under both binaries. "
                   "Race reports depend on the schedule (the getSection race below is reported in ~2 of 3 runs). "
                   "Trusted: Coq kernel + vm_compute; hand-written model tied by differential correspondence; "
-                  "int(math.Floor(float64(n)/float64(s))) = n/s is exercised up to n = 2e6, not proved; marching "
+                  "int(math.Floor(float64(n)/float64(s))) = n/s is proved for n, s < 2^53 from Flocq's binary64 (the two theorems "
+                  "about it depend on the axioms of Coq's standard library of real numbers, all other theorems are axiom "
+                  "free); marching "
                   "triangles are compared as weld-cell key triples (the rounding WeldByFloat3Attribute applies)",
     "technique": "Coq proof (induction over interleavings, permutation/NoDup arguments, per-key projection of "
                  "executions, chunk arithmetic by lia) + vm_compute correspondence check + Go race detector",
